@@ -422,6 +422,52 @@ def run(F, rep, tier):
                 rep.violation(r6, "aggregator-guard:%s" % pol, "%s refuses tables under a different condition than the other aggregators: %s vs %s" % (aggs[pol].split("::")[-1], sorted(gs)[:2], sorted(major)[:2]),
                               "%s:%s" % (FILE, F.hir[aggs[pol]]["line"]))
 
+    # ---------------- R03.7: list results are lists; per-clause collections are accumulated, not overwritten
+    r7 = rep.rule("R03.7", "list-valued results are lists on every path (also for a single match); collections gathered over the clauses of a table grow in their loop and are never overwritten there")
+    gr = F.hir.get(EDT + "get_results")
+    if gr is None:
+        rep.missing_anchor(r7, EDT + "get_results")
+    else:
+        fl = hirflow.Flow(gr)
+        bad = [(d, line) for d, cond, line in fl.returns if not (d and d[0] == "ctor" and isinstance(d[1], str) and d[1].endswith("Value::List"))]
+        if bad:
+            rep.violation(r7, "get_results:list", "get_results returns %s at line %s: RULE ORDER / OUTPUT ORDER / COLLECT yield the *list* of matching outputs, also when exactly one rule matches"
+                          % (str(bad[0][0])[:80], bad[0][1]), "%s:%s" % (FILE, bad[0][1]))
+        else:
+            rep.ok(r7, "get_results:list", "every path returns Value::List")
+    from props.c05 import _sccs
+    nacc = 0
+    for bname, b in sorted(F.bodies.items()):
+        if not bname.startswith(DT) or b["kind"] == "closure" and False:
+            continue
+        blocks = b["blocks"]
+        nodes = [i for i, bl in enumerate(blocks) if not bl.get("cleanup")]
+        succ = {i: [y for y in mirutil.normal_successors(blocks[i]["t"]) if not blocks[y].get("cleanup")] for i in nodes}
+        inloop = set()
+        for comp in _sccs(nodes, succ):
+            if len(comp) > 1 or comp[0] in succ[comp[0]]:
+                inloop |= set(comp)
+        B = mirutil.Body(F, b)
+        for l, defs in B.defs.items():
+            ty = B.local_ty(l)
+            if not ty.startswith("alloc::vec::Vec<") or B.is_arg(l):
+                continue
+            outside = [d for d in defs if d[0] not in inloop]
+            inside = [d for d in defs if d[0] in inloop]
+            # only named source variables (temporaries are re-created per iteration by construction)
+            if str(l) not in (b.get("names") or {}):
+                continue
+            if outside and inside:
+                nm = b["names"][str(l)]
+                line = inside[0][3].get("line") if isinstance(inside[0][3], dict) else (inside[0][3][-1] if isinstance(inside[0][3], list) else None)
+                rep.violation(r7, "accumulator:%s:%s" % (bname.split("::")[-1], nm), "`%s` in %s is initialised before a loop and assigned as a whole inside it (line %s): what earlier iterations "
+                              "collected is dropped (e.g. only the last output clause's values survive)" % (nm, bname.split("::")[-1], line), "%s:%s" % (FILE, line))
+            elif outside and not inside:
+                nacc += 1
+    if not any(v["rule"] == r7 and v["key"].startswith("accumulator:") for v in rep.violations):
+        rep.ok(r7, "accumulators", "%d vector variables of decision_table.rs are only grown (push / append / extend), none is overwritten inside a loop" % nacc)
+    rep.floor(r7, "vector accumulators in decision_table.rs", nacc, 6)
+
     # ---------------- R03.3 (MIR): the `matches` flag
     name = DT + "evaluate_parsed_decision_table"
     b = F.bodies.get(name)
